@@ -37,12 +37,12 @@ def run(facts, rep, tier):
     body = tp.flat(decl["body"])
     rep.ob("C05.T1", "field-visibility-is-a-hole", body.replace(" ", "") == "#vis#inner_type_name", "newtype is `struct #type_name(#vis #inner_type_name)`" if body.replace(" ", "") == "#vis#inner_type_name" else "newtype field is `%s`: visibility is not controlled by the constraint" % body, decl_t.sp)
     # T1: vis
-    vis_lets = [n for n, _ in nodes(em.h["body"], "let") if n["pat"].get("k") == "bind" and n["pat"]["name"] == "vis"]
+    vis_lets = em.let_of("vis")
     if rep.floor("C05.T1", "binding of the visibility hole", len(vis_lets), 1):
         m = vis_lets[0]["init"]
         ok = False
         detail = "vis is not a match on the constraints"
-        if m.get("k") == "match" and "constraints" in src(m["scrut"]):
+        if m.get("k") == "match" and "constraints" in em.canon().r(m["scrut"]):
             pub_arms = []
             for a in m["arms"]:
                 has_pub = any((facts.template_at(x["sp"]) or {}).get("text", "").strip() == "pub" for x, _ in walk(a["body"]) if x.get("k") == "macro")
@@ -101,7 +101,7 @@ def run(facts, rep, tier):
     # T3
     for arm in constrained:
         des = [(t, im) for t in by_arm[arm] for im in t.impls if im["trait"].startswith("::serde::Deserialize<") and im["self"] == "#type_name"]
-        rm = [n for n, anc in nodes(em.h["body"], "mcall") if src(n["recv"]) == "derive_set" and n["name"] == "remove" and any(g[0] == "arm" and all(x in g[1] for x in arm.split("|")) for g in guards(anc, n))]
+        rm = [n for (op, lits, gs, n) in em.derive_set_ops()[0] if op == "remove" and any(g[0] == "arm" and all(x in g[1] for x in arm.split("|")) for g in gs)]
         rep.ob("C05.T3", "deserialize-pairing:" + arm, bool(des) and bool(rm), "derive removed and validating impl emitted in the %s arm" % arm if des and rm else "the %s arm %s" % (arm, "keeps the derived Deserialize (bypasses validation)" if not rm else "emits no Deserialize impl"), (des[0][0].sp if des else None))
         for t, im in des:
             bt = tp.squash(tp.flat(im["fns"][0]["body"])) if im["fns"] else ""
@@ -140,10 +140,10 @@ def run(facts, rep, tier):
         rep.floor("C05.T4", "length measurements in the filter", len(lens), 2)
 
     # D1
-    nots = [n for n, _ in nodes(em.h["body"], "let") if n["pat"].get("k") == "bind" and n["pat"]["name"] == "not"]
+    nots = em.let_of("not")
     if rep.floor("C05.D1", "binding of the negation hole", len(nots), 1):
-        s = src(nots[0]["init"])
-        m = re.match(r"match constraints \{ TypeEntryNewtypeConstraints::(\w+)\(_\) => true \| _ => false \}\.then\(", s)
+        s = em.canon().r(nots[0]["init"])
+        m = re.match(r"match \S*constraints \{ TypeEntryNewtypeConstraints::(\w+)\(_\) => true \| _ => false \}\.then\(", s)
         has_bang = any((facts.template_at(x["sp"]) or {}).get("text", "").strip() == "!" for x, _ in walk(nots[0]["init"]) if x.get("k") == "macro")
         ok = bool(m) and m.group(1) == "EnumValue" and has_bang
         rep.ob("C05.D1", "negate-iff-allow-list", ok, "`!` is emitted exactly for EnumValue: values NOT in the list are rejected" if ok else "negation hole is `%s`" % s[:120], nots[0].get("sp"))
@@ -190,7 +190,7 @@ def run(facts, rep, tier):
         if not e:
             continue
         ts = [t for t in e.templates if tp.flat(t.tt).strip() == "deny_unknown_fields"]
-        ok = bool(ts) and any(g[0] == "if" and g[1] == "*deny_unknown_fields" for g in ts[0].guards)
+        ok = bool(ts) and any(g[0] == "if" and re.fullmatch(r"\S*~TypeEntry(Enum|Struct)\.deny_unknown_fields", g[1]) for g in ts[0].conds())
         rep.ob("C05.W2", "closed-objects:%s" % kind, ok, "`deny_unknown_fields` pushed under `if *deny_unknown_fields`" if ok else "the %s emitter does not emit deny_unknown_fields from the IR flag" % kind, ts[0].sp if ts else None)
         serde_t = [t for t in e.templates if t.bound == "serde"]
         rep.ob("C05.W2", "serde-options-emitted:%s" % kind, bool(serde_t) and tp.flat(serde_t[0].tt).replace(" ", "") == "#[serde(#(#serde_options),*)]" and bool(e.used_as_hole("serde")), "#[serde(#(#serde_options),*)] is interpolated into the item")
